@@ -15,3 +15,7 @@ func Pause(point string) {}
 
 // Note reports a state transition or counter to the installed monitor.
 func Note(kind string, a, b int64) {}
+
+// Int64 lets the monitor replace a value the code is about to use (a clock
+// reading, say); without a handler it returns v.
+func Int64(point string, v int64) int64 { return v }
